@@ -282,31 +282,48 @@ class Sim:
                 cj.amb = True
 
     def dry_run(self, i, op, arg):
-        """Measure, on a deep copy of the whole world, how many skchange line events and
-        stub-peer calls the call would make (to place an interrupt / flaky fault)."""
-        objs = copy.deepcopy([c.obj for c in self.clients])
-        tr = LineTracer(None)
-        FAULTS.disarm()
-        FAULTS_counts.clear()
-        FAULTS_counting[0] = True
-        try:
-            tr.run(lambda: call(objs[i], op, arg))
-        finally:
-            FAULTS_counting[0] = False
-        return tr.count, dict(FAULTS_counts)
+        """Measure how many skchange line events and stub-peer calls the call would make
+        (to place an interrupt / flaky fault).  The measurement runs in a forked child on
+        the world as it is, so it cannot leave anything behind in this process — not
+        even in module-level state of the code under test (a dry run that did once made
+        a violation irreproducible from its replay file)."""
+        from histsim.runner import isolated
+
+        def inner():
+            tr = LineTracer(None)
+            FAULTS.disarm()
+            FAULTS_counts.clear()
+            FAULTS_counting[0] = True
+            try:
+                tr.run(lambda: call(self.clients[i].obj, op, arg))
+            finally:
+                FAULTS_counting[0] = False
+            return {"count": tr.count, "counts": dict(FAULTS_counts)}
+
+        res = isolated(inner, 120)
+        if "harness_error" in res:
+            return 0, {}
+        return res["count"], res["counts"]
 
     def dry_run_sites(self, i, op, arg):
         """As dry_run, but records the (file, line) of every line event."""
-        objs = copy.deepcopy([c.obj for c in self.clients])
-        tr = LineTracer(None, record_sites=True)
-        FAULTS.disarm()
-        FAULTS_counts.clear()
-        FAULTS_counting[0] = True
-        try:
-            tr.run(lambda: call(objs[i], op, arg))
-        finally:
-            FAULTS_counting[0] = False
-        return tr.sites, dict(FAULTS_counts)
+        from histsim.runner import isolated
+
+        def inner():
+            tr = LineTracer(None, record_sites=True)
+            FAULTS.disarm()
+            FAULTS_counts.clear()
+            FAULTS_counting[0] = True
+            try:
+                tr.run(lambda: call(self.clients[i].obj, op, arg))
+            finally:
+                FAULTS_counting[0] = False
+            return {"sites": tr.sites, "counts": dict(FAULTS_counts)}
+
+        res = isolated(inner, 300)
+        if "harness_error" in res:
+            return [], {}
+        return res["sites"], res["counts"]
 
     # ---------------------------------------------------------------- execution
     def execute(self, st):
